@@ -402,7 +402,7 @@ func TestC13(t *testing.T) {
 	{
 		var wg sync.WaitGroup
 		var mmu sync.Mutex
-		for _, rc := range []int{0, 1, 2}[:pick(2, 3)] {
+		for _, rc := range []int{0, 2, 1}[:pick(2, 3)] { // 2: the third connection is a refreshed one (the second is the first on the key-derived rendezvous)
 			rc := rc
 			wg.Add(1)
 			go func() {
